@@ -185,14 +185,15 @@ def replaceLoop (target : List Nat) (f : Caps → List Nat) : List Caps → Nat 
     replaceLoop target f rest (capEnd mt) (result ++ f mt)
 
 /-- builtin_string.go:215 builtinStringReplace with a RegExp search value;
-    `repl = none` is the reporting function replacer -/
-def builtinStringReplace (E : Eng) (rx : RX) (target : List Nat) (repl : Option (List Nat)) : RX × Res :=
+    a function replacer's result (builtin_string.go:289-311) is appended as it is: no `$` expansion -/
+def builtinStringReplace (E : Eng) (rx : RX) (target : List Nat) (repl : Repl) : RX × Res :=
   let found := findAll E target (if rx.global then none else some 1)
   let rx := if rx.global then { rx with lastIndex := .int 0 } else rx
   if found.isEmpty then (rx, .str (jsStr target)) else
   let f : Caps → List Nat := match repl with
-    | some rv => fun mt => expand target mt rv
-    | none => fun mt => reportArgs (replacerArgs target mt)
+    | .str rv => fun mt => expand target mt rv
+    | .report => fun mt => reportArgs (replacerArgs target mt)
+    | .const ret => fun _ => ret
   let (result, lastIndex) := replaceLoop target f found 0 []
   let result := if lastIndex ≠ target.length then result ++ target.drop lastIndex else result
   (rx, .str (jsStr result))
@@ -246,8 +247,9 @@ def step (E : Eng) (target : List Nat) (rx : RX) : Step → RX × Res
   | .test => builtinRegExpTest E rx target
   | .mtch => builtinStringMatch E rx target
   | .search => builtinStringSearch E rx target
-  | .replaceS r => builtinStringReplace E rx target (some r)
-  | .replaceF => builtinStringReplace E rx target none
+  | .replaceS r => builtinStringReplace E rx target (.str r)
+  | .replaceF => builtinStringReplace E rx target .report
+  | .replaceK r => builtinStringReplace E rx target (.const r)
   | .split l => builtinStringSplit E rx target l
   | .setLI v => ({ rx with lastIndex := v }, .undef)
 
